@@ -22,7 +22,7 @@ package props
 //   StarEmpty        may the `*` of a wildcard-suffix domain stand for the empty string ("*a.com" vs Host "a.com")?
 //
 // Further zones are excluded at generation time: paths/values that differ from a configured one only by letter case,
-// unanchored regular expressions (search vs full match), regular expressions matching the empty string together with
+// regular expressions matching the empty string together with
 // unset variables/paths, empty header values, IPv6 literals, routes that combine several rule kinds (path + variables,
 // variables + headers), the OR model of variable rules, the legacy literal ".*" value of the `service` header,
 // `method` matchers on non-HTTP (RPC) rules.
@@ -383,10 +383,14 @@ func c04ClassOf(pds []c04PD, vh int, q *c04Req, in c04Interp) string {
 
 var c04ReCache sync.Map
 
+// c04FullMatch: does the value match the regular expression, in the sense Go's regexp package documents for a match ("the
+// string contains any match of the pattern"; anchoring is the pattern's own business). MOSN's configuration is defined in terms
+// of Go regular expressions; the first versions of this model generated only ^...$ patterns and left unanchored ones out as an
+// open zone, which also left every deviation on unanchored patterns unobserved (seeded change C04-m3).
 func c04FullMatch(pattern, s string) bool {
 	v, ok := c04ReCache.Load(pattern)
 	if !ok {
-		v, _ = c04ReCache.LoadOrStore(pattern, regexp.MustCompile("^(?:"+pattern+")$"))
+		v, _ = c04ReCache.LoadOrStore(pattern, regexp.MustCompile(pattern))
 	}
 	return v.(*regexp.Regexp).MatchString(s)
 }
@@ -547,14 +551,16 @@ var (
 
 	c04Paths      = []string{"/", "/a", "/a/", "/a/b", "/a/1", "/a/12", "/b", "/b/x", "/ab", "/c"}
 	c04Prefixes   = []string{"/", "/a", "/a/", "/a/b", "/b"}
-	c04PathRegex  = []string{"^/a/[0-9]+$", "^/(a|b)/.*$", "^/.*$", "^/a.*$", "^/[ab]$"}
+	c04PathRegex  = []string{"^/a/[0-9]+$", "^/(a|b)/.*$", "^/.*$", "^/a.*$", "^/[ab]$",
+		// unanchored / half-anchored: a match may start anywhere in the path
+		"a/[0-9]+", "/[0-9]+$", "b", "/b$", "a/b|/c", "[0-9]{2}", "^/a", "x$"}
 	c04Methods    = []string{"GET", "POST", "PUT"}
 	c04HdrNames   = []string{"h1", "h2", "service"}
 	c04HdrValues  = map[string][]string{"h1": {"v1", "v2", "v12", "w"}, "h2": {"v1", "v2"}, "service": {"s1", "s2", "s12", "x"}}
-	c04HdrRegex   = map[string][]string{"h1": {"^v[0-9]$", "^v1.*$"}, "h2": {"^v[12]$"}, "service": {"^(s1|s2)$", "^s[0-9]+$"}}
+	c04HdrRegex   = map[string][]string{"h1": {"^v[0-9]$", "^v1.*$", "1", "2$", "v[0-9]{2}"}, "h2": {"^v[12]$", "2"}, "service": {"^(s1|s2)$", "^s[0-9]+$", "1", "s1$", "[0-9]{2}"}}
 	c04VarNames   = []string{"c04_v1", "c04_v2"}
 	c04VarValues  = []string{"x", "y", "z"}
-	c04VarRegex   = []string{"^x$", "^(x|y)$", "^[yz]$"}
+	c04VarRegex   = []string{"^x$", "^(x|y)$", "^[yz]$", "x", "y|z", "[xz]$"}
 	c04VarModels  = []string{"", "", "and", "AND"}
 	c04ScratchDom = "scratch.c04"
 )
